@@ -71,6 +71,17 @@ CLAIMED = {
         "objects, ids unique among live objects); the history stream is implementation-vs-implementation (observational tie of the generic machine), seeds fix the draws "
         "(random methods run eagerly); object aliasing itself is observed by byte equality, not modelled.",
    design="5 (C13)", technique="Coq invariant proofs by induction over operation histories (heap/cache state machine, lazy-field machine) + replay of histories on the real objects"),
+ "C18": dict(
+   text="Machine-checked proofs (Coq 8.16.1, closed) about an executable transcription of ProtoGreedySearch/MMDCriticSearch/ProtoDashSearch + Prototypes: weights "
+        "non-negative and summing to one, selected cases distinct, the per-batch/strict-> arg-max equals the dense first arg-max for every batching, the MMDCritic and "
+        "ProtoGreedy objectives equal the documented formulas on the full kernel matrix, ProtoDash starts at the largest column mean, (batch, position) <-> flat index "
+        "translation and label/index consistency of local explanations. The equality of the triangular column-mean tables with dense column means and of the whole "
+        "batched selection with the dense greedy are TESTED (vm_compute) on every generated case, not yet proved. Tied to /repo on every run through the public API "
+        "(indices exact under a margin guard, weights/tables/distances within 1e-4..4e-6, implementation-vs-implementation across batch sizes).",
+   note="Partial proof: colmeans_triangular and end-to-end greedy_batch_invariant unproved (tested per case). Trusted: Coq kernel + vm_compute, hand-written model, harness "
+        "including the float64 reference used only for guards, kernel values rounded to 2^-24 and eps 17*2^-24, TF argmax/inv semantics, float32 covered by tolerances and "
+        "the cond <= 60 guard.",
+   design="5 (C18)", technique="Coq invariants over the greedy loop + generic first-arg-max batching lemma + differential correspondence with margin/conditioning guards"),
 }
 PENDING_REASON = "check not built yet in this session (work in progress; planned in DESIGN.md section 5)"
 
